@@ -133,6 +133,9 @@ def check_C10(ctx):
         cs.eval(t_, o_, fam_)
     for (t_, o_, fam_, *_m) in scale.guard_patterns(ctx):
         cs.eval(t_, o_, fam_)
+    # names other systems treat as built-ins, names spelled like keywords (on objects that have them), paths continuing below a list
+    for (t_, o_, fam_, *_m) in scale.magic_names(ctx) + scale.keyword_keys(ctx) + scale.list_parents(ctx):
+        cs.eval(t_, o_, fam_)
     # a name that could be split at `:` `-` `_` into a sibling object and a key in it; function values (never called)
     fb = obj({'ext': {'flag': ('b', True), 'n': ('nil',)}, 'a': {'b': I(1)}, 'x': ('o', 35), 'y': ('o', 36), 'z': ('o', 37), 'n': {'x': ('o', 37)}})
     for t_ in ['ext:flag pr', 'ext:flag eq null', 'ext:flag eq true', 'ext:flag ne false', 'ext:n pr', 'ext:zz pr', 'a-b eq 1', 'a-b pr', 'a_b eq 1', 'a:b pr', 'a:b eq null', 'ext-flag eq true',
@@ -209,6 +212,35 @@ def rand_num_attr(rng, near=None):
     if k == 6: return F(struct.unpack('>d', struct.pack('>Q', rng.randrange(2**64)))[0])
     return F(rng.uniform(-10, 10))
 
+def near_tie_literals(rng, n):
+    """(literal text, v, next float64 above v): decimal texts exactly at, just above and just below the midpoint of v and its successor"""
+    import decimal, math
+    from fractions import Fraction
+    decimal.getcontext().prec = 1400
+    vals = [1.0, 0.1, 0.3, 1.5, 2.0 ** 52, 123456.789, 1e-5, 5e-324 * 2 ** 60, 0.5, 3.0, 1e15, 7.0e-10, 2.0 ** -30, 9007199254740991.0]
+    while len(vals) < n:
+        vals.append(rng.choice([1, 10, 1000, 1e-3, 1e6]) * (1 + rng.random()))
+    out = []
+    for v in vals[:n]:
+        hi = math.nextafter(v, math.inf)
+        mid = (Fraction(v) + Fraction(hi)) / 2
+        d = decimal.Decimal(mid.numerator) / decimal.Decimal(mid.denominator)
+        t = format(d, 'f')
+        if '.' not in t:
+            t += '.0'
+        if len(t) > 700:
+            continue
+        out.append((t, v, hi))
+        out.append((t + '0001', v, hi))
+        out.append((t + '0000000000000000000000000000000000000001', v, hi))
+        # just below: the last digit decreased, a run of nines appended
+        i = len(t) - 1
+        while i >= 0 and t[i] in '0.':
+            i -= 1
+        if i >= 0:
+            out.append((t[:i] + str(int(t[i]) - 1) + t[i + 1:].replace('0', '9') + '9999', v, hi))
+    return out
+
 def check_C03(ctx):
     cs = CaseSet()
     for (t, o) in CORPUS:
@@ -227,6 +259,20 @@ def check_C03(ctx):
         if ctx.rng.random() < 0.2:
             text = ctx.rng.choice(['k eq 1 and %s', '%s or k eq 2', 'not (not (%s))', '(%s)']) % text
         cs.eval(text, ('m', [(b'x', a), (b'k', I(1))]), 'num-random', attr=a, lit=lit, op=op)
+    # decimal literals of 40 ... 110 digits at and next to the half-way point between two neighbouring float64 values (a literal that is cut
+    # off or rounded twice lands on the wrong side), and whole-valued positional decimals beyond the int64 range
+    ties = near_tie_literals(ctx.rng, ctx.n(12, 120))
+    for (lit_, lo_, hi_) in ties:
+        for a in (F(lo_), F(hi_)):
+            for op in REL:
+                cs.eval('x %s %s' % (OP_SPELL[op][0], lit_), obj({'x': a}), 'num-near-tie', attr=a, lit=('double', lit_), op=op)
+        cs.simple('pfloat', hx(lit_), 'pfloat-near-tie')
+    for lit_ in ['100000000000000000000.0', '18446744073709551616.00', '9223372036854775808.0', '-9223372036854775809.0', '9223372036854775807.0', '-9223372036854775808.0',
+                 '99999999999999999999999.000', '36893488147419103232.0', '10000000000000000000.0', '-100000000000000000000.00']:
+        for a in (F(1e19), F(float(2**63)), F(1e20), F(-1e20), F(-float(2**63)), F(float(2**64)), F(9.223372036854775e18), F(1e23), I(5), I(-5)):
+            for op in REL:
+                cs.eval('x %s %s' % (OP_SPELL[op][0], lit_), obj({'x': a}), 'num-whole-decimal', attr=a, lit=('double', lit_), op=op)
+        cs.simple('pfloat', hx(lit_), 'pfloat-whole-decimal')
     # the literal parsers of the model against strconv directly
     for d in DOUBLE_LITS:
         cs.simple('pfloat', hx(d), 'pfloat-pool')
@@ -458,7 +504,7 @@ def check_C08(ctx):
     cs = CaseSet()
     groups = []   # (in-case, expanded-case, [variant cases])
     lists = [('ints', l) for l in INTS_LITS if '9223372036854775808' not in l] + \
-            [('doubles', l) for l in DOUBLES_LITS if '1.0e999' not in l] + [('strings', l) for l in STRINGS_LITS]
+            [('doubles', l) for l in DOUBLES_LITS if not any('e999' in e for e in l)] + [('strings', l) for l in STRINGS_LITS]
     attrs = INT_ATTRS + FLOAT_ATTRS + STR_ATTRS + STRINGER_ATTRS[:5] + [ABSENT, ('nil',), ('b', True), ('m', []), ('o', 1), ('o', 9)]
     def add_group(lit, a, fam, path=['x'], ctxfmt='%s'):
         o = mk_obj(path, a, extra={'k': I(1)})
@@ -508,6 +554,10 @@ def check_C08(ctx):
         cs.eval(t_, o_, fam_)
     for (t_, o_, fam_, *_m) in scale.printing_alike(ctx):
         cs.eval(t_, o_, fam_)
+    # elements beyond the float64 range next to infinite attributes: the list fails like the scalar literal does (both against the model)
+    for (tin_, teq_, o_) in scale.inf_lists(ctx):
+        cs.eval(tin_, o_, 'inf-lists')
+        cs.eval(teq_, o_, 'inf-lists')
     for n_ in ([4097] if ctx.quick else [4097, 10000, 65537]):
         big_ = 'x in [%s]' % ', '.join(str(i_ * 2) for i_ in range(n_))
         for a_ in (I(2 * (n_ - 1)), I(1), F(2.0), F(2.5), I(0), ABSENT):
@@ -560,6 +610,12 @@ def check_C06(ctx):
             for fmt in ['%s or %s', 'not (%s) and %s', '(%s or %s) or z pr', '%s or (%s and z pr)', 'k eq 2 or %s or %s', 'k eq 1 and %s and %s']:
                 for o in (obj({}), obj({'k': I(1), 'a': I(1), 'b': S('x')}), obj({'a': ('nil',), 'k': I(1)})):
                     cs.eval(fmt % (h, t), o, 'sticky')
+    # attribute values whose String() panics with the library's own sentinel error (or an error wrapping it): the rule has no unsupported
+    # comparison, so whatever Process returns is not ErrInvalidOperation
+    fam_other_typed(cs, ctx.rng)
+    for a_ in (('strpanicinvop',), ('strpanicinvopw',), ('strpanic',)):
+        for t_ in ['plan eq "free" or owner pr', 'plan co "x"', 'k eq 1 and plan sw "f"', 'plan in ["free", "pro"]', 'not (plan eq "free")', 'owner pr and plan ne "x"', 'plan eq "free" or k gt null']:
+            cs.eval(t_, obj({'plan': a_, 'owner': I(1), 'k': I(1)}), 'sentinel-panic')
     # size and shape beyond small random rules (harness/scale.py)
     for (t_, o_, fam_, *_m) in scale.long_fail_chains(ctx):
         cs.eval(t_, o_, fam_)
@@ -570,6 +626,11 @@ def check_C06(ctx):
     res = ctx.run(cs)
     ctx.compare(cs.cases, res, ['verdict', 'err'], scope=accepted)
     spec_violations(ctx, 'failure/verdict')
+    # the error of the root entry point rules.Evaluate is ErrInvalidOperation exactly when the error of Process is
+    for c in cs.cases:
+        io = res.impl.get(c.id)
+        if io and io.get('rerr') not in (None, io.get('err')):
+            ctx.violation('rules.Evaluate returns an error of class %s where NewEvaluator+Process return %s (errors.Is(err, ErrInvalidOperation) differs between the entry points)' % (io.get('rerr'), io.get('err')), [c], impl=io)
     ctx.exhaustive = ctx.tier != 'quick'
     spread_samples(ctx, cs, res)
 
@@ -581,7 +642,7 @@ T_RULES = ['x eq 1', 'a eq 1', 'x in [1, 2] or y in [3, 99999999999999999999]', 
 T_OBJS = [obj({}), obj({'x': I(9)}), obj({'x': I(1)}), obj({'x': I(2)}), obj({'a': S('s')}), obj({'a': I(2)}), obj({'x': I(3), 'y': I(3)}), obj({'x': S('u')}), obj({'a': I(1)}), obj({'b': I(5)}),
           obj({'b': {'c': I(2)}}), obj({'a': ('strpanic',), 'b': S('p')}), obj({'a': {'b': {'c': I(1)}}}), obj({'a': {'b': I(2)}}),
           obj({'y': I(3), 'x': F(1.5)}), obj({'s': ('strpanic',), 't': S('a'), 'u': I(1)}), obj({'a': S('1.0.0'), 'b': S('Q')}),
-          obj({'k': I(1), 'x': I(1)}), obj({'a': I(3), 'b': I(2)})]
+          obj({'k': I(1), 'x': I(1)}), obj({'a': I(3), 'b': I(2)}), ('nilmap',)]
 
 def check_C16(ctx):
     cs = CaseSet()
@@ -615,6 +676,18 @@ def check_C16(ctx):
         cs.eval(t_, o_, fam_)
     for (t_, o_, fam_, *_m) in scale.guard_patterns(ctx):
         cs.eval(t_, o_, fam_)
+    # lists of every length around round sizes against attributes that cannot be compared with them (the diagnostic must be there for 16
+    # elements as for 15)
+    for n_ in ([1, 7, 8, 15, 16, 17, 31, 32, 33, 64, 65, 128, 257] if ctx.quick else [1, 7, 8, 9, 15, 16, 17, 31, 32, 33, 63, 64, 65, 127, 128, 129, 255, 256, 257, 1024, 4097]):
+        for lt_ in ['x in [%s]' % ', '.join(str(i) for i in range(1, n_ + 1)), 'x in [%s]' % ', '.join('%d.5' % i for i in range(1, n_ + 1)), 'x in [%s]' % ', '.join('"v%d"' % i for i in range(1, n_ + 1))]:
+            for a_ in (ABSENT, S('s'), ('b', True), ('m', []), ('nil',), I(1), F(1.5), S('v1'), ('o', 1), ('str', b'v1'), ('i64', 1)):
+                cs.eval(lt_, mk_obj(['x'], a_), 'dbg-long-lists')
+                cs.eval('k eq 1 and ' + lt_, mk_obj(['x'], a_, extra={'k': I(1)}), 'dbg-long-lists')
+    # an attribute value whose String() calls Process on the very evaluator that is evaluating it: the diagnostic of the outer call is the outer call's
+    for t_ in ['x eq "abc" and k eq 1', 'zz eq 1 or x eq "abc"', 'x co "b"', 'x eq "abc" or zz eq 1', 'zz eq 1 or (x sw "a" and k eq 1)', 'x in ["abc", "q"] and k eq 1', 'k gt "s" or x ew "c"', 'x eq "abcd" and k eq 1',
+               'zz pr or x eq "abcd"', 'n.x eq "abc" and zz.y eq 1', 'x eq "zzz" or k eq 1']:
+        for a_ in (('strsame', b'abc'), ('strsame', b'abcd')):
+            cs.eval(t_, obj({'x': a_, 'k': I(1), 'n': {'x': a_}}), 're-entrant-same-evaluator')
     res = ctx.run(cs)
     ctx.compare([c for c in cs.cases if c.kind != 'hist'], res, ['dbg'], scope=accepted)
     ctx.compare([c for c in cs.cases if c.kind == 'hist'], res, ['out'], nontrivial=lambda c, mo: True)
@@ -1015,7 +1088,7 @@ def check_C02(ctx):
         cs.eval(t, odd, 'odd-keys')
     # size and shape beyond small random rules (harness/scale.py)
     deep_groups = []
-    for (t_, o_, fam_, m_) in scale.deep_paths(ctx) + scale.path_reuse(ctx)[::2]:
+    for (t_, o_, fam_, m_) in scale.deep_paths(ctx) + scale.path_reuse(ctx)[::2] + scale.version_pairs(ctx):
         c_ = cs.eval(t_, o_, fam_)
         if m_:
             deep_groups.append((c_, m_[1], [cs.eval(ct_, o_, 'deep-path-alone') for ct_ in m_[0]]))
@@ -1225,6 +1298,10 @@ def check_C15(ctx):
     for (t_, o_, fam_, *_m) in scale.printing_alike(ctx)[::3]:
         canon_ = cs.eval(t_, o_, fam_)
         groups.append((canon_, [cs.eval(t_.replace(' in ', ' IN ', 1), o_, fam_), cs.eval('(' + t_ + ')', o_, fam_), cs.eval(t_.replace(', ', ',  '), o_, fam_)]))
+    # operands that fail, panic or stay undecided in different ways, with and without redundant parentheses around them
+    for (base_, variants_, o_) in scale.failing_groups(ctx):
+        canon_ = cs.eval(base_, o_, 'failing-groups')
+        groups.append((canon_, [cs.eval(v_, o_, 'failing-groups') for v_ in variants_]))
     res = ctx.run(cs)
     ctx.compare(cs.cases, res, ['accept', 'verdict', 'err', 'dbg'])
     run_sequences(ctx, fields=('accept', 'verdict', 'err'))
@@ -1236,6 +1313,9 @@ def check_C15(ctx):
             vo = res.impl.get(v.id)
             if vo and (vo['verdict'], vo['err'], vo['dbg'] != 'nil') != (co['verdict'], co['err'], co['dbg'] != 'nil'):
                 ctx.violation('respelling changes the outcome: %s/%s/%s vs %s/%s/%s' % (co['verdict'], co['err'], co['dbg'], vo['verdict'], vo['err'], vo['dbg']), [canon, v])
+            elif vo and vo.get('eh') != co.get('eh') and co.get('accept') == '1' and vo.get('accept') == '1':
+                # the error handed to the caller is part of the outcome: same class AND same text for every spelling of a sentence
+                ctx.violation('respelling changes the text of the error that Process returns (same verdict and class)', [canon, v], impl=vo)
     spread_samples(ctx, cs, res)
 
 CHECKS.update({'C01': check_C01, 'C02': check_C02, 'C17': check_C17, 'C15': check_C15})
@@ -1255,6 +1335,9 @@ def check_C05(ctx):
         cs.eval(t_, obj({'x': I(1)}), 'long-token')
     for (t_, o_, fam_, *_m) in scale.keyword_keys(ctx) + scale.operator_literals(ctx)[::2] + scale.escape_tails(ctx)[::5]:
         cs.eval(t_, o_, fam_)
+    for t_ in scale.error_counts(ctx):
+        cs.eval(t_, obj({'x': I(1), 'y': I(2)}), 'error-counts')
+    mode_cases = [cs.syntax(t_, 'usage-modes') for t_ in [t for t in FIXED_TEXTS if isinstance(t, str)] + scale.error_counts(ctx)[::3]]
     # an evaluator of a malformed text stays rejecting: after Reset, after other evaluators were created, on every call
     bad_texts = [t for t in FIXED_TEXTS if isinstance(t, str)][:120]
     hist_cases, il_cases = [], []
@@ -1274,11 +1357,16 @@ def check_C05(ctx):
             return False
     ctx.compare([c for c in cs.cases if c.kind in ('hist', 'ileave')], res, ['out'])
     spec_violations(ctx, 'evaluators of malformed texts')
-    ctx.compare([c for c in cs.cases if c.kind not in ('hist', 'ileave')], res, ['accept', 'verdict', 'err', 'ev3'], scope=valid_utf8)
+    ctx.compare(mode_cases, res, ['lexok', 'accept'])
+    for c in mode_cases:
+        io = res.impl.get(c.id)
+        if io and io.get('modes') == '0':
+            ctx.violation('a text is accepted or rejected differently when the generated lexer / parser are used in the usual ANTLR order or re-used for many texts', [c], impl=io)
+    ctx.compare([c for c in cs.cases if c.kind not in ('hist', 'ileave', 'syntax')], res, ['accept', 'verdict', 'err', 'ev3'], scope=valid_utf8)
     nrej = 0
     for c in cs.cases:
         mo, io = res.model.get(c.id), res.impl.get(c.id)
-        if not mo or not io or 'accept' not in mo:
+        if not mo or not io or 'accept' not in mo or c.kind == 'syntax':
             continue
         if mo['accept'] == '0' and valid_utf8(c):
             nrej += 1
@@ -1295,6 +1383,8 @@ def check_C20(ctx):
     fam_text(add, ctx.rng, ctx.n(600, 20000), 5, ctx.n(1500, 40000), ctx.n(200, 4000))
     for t in FIXED_TEXTS:
         cs.syntax(t, 'text-fixed')
+    for t in scale.error_counts(ctx):
+        cs.syntax(t, 'error-counts')
     # token-level facts named in the statement
     for t in ['order', 'or', 'ordering', 'andy', 'and', 'nota', 'not', 'notx', 'prx', 'pr', 'p', 'eqx', 'eq', 'nullx', 'null', 'truex', 'in1', 'IN', 'In',
               '1.2.3', '1.2', '1.2.', '1.2.3.4', '1..2', '<=', '<', '<==', '>=', '=>', '!=', '!', '=', '==', '===', 'a-b', 'a_b', 'a:b', 'a.b', 'a1', '1a', '-a', '_a', ':a', 'a-',
@@ -1330,6 +1420,12 @@ def check_C20(ctx):
     nacc = sum(1 for c in cs.cases if (res.model.get(c.id) or {}).get('accept') == '1')
     ctx.extra['accept_reject'] = {'accepted': nacc, 'rejected': len(cs.cases) - nacc}
     spec_violations(ctx, 'shipped lexer/parser vs grammar')
+    # the same text through the generated lexer / parser used in the usual ANTLR order (listeners attached after construction) and through
+    # ONE lexer and ONE parser object re-armed for every text of the process: same acceptance, same tree
+    for c in cs.cases:
+        io = res.impl.get(c.id)
+        if io and io.get('modes') == '0':
+            ctx.violation('the generated lexer / parser accept or read this text differently when the listeners are attached after construction, or when one lexer and one parser object are re-used for many texts', [c], impl=io)
     # token numbering derived from the .g4 by the translator vs the generated JsonQuery.tokens
     import re as _re
     try:
@@ -1353,7 +1449,7 @@ def check_C20(ctx):
 
 # ----------------------------------------------------------------------------
 HOSTILE_STRINGS = [S(b'\x80' * 100), S(b'\xbf' * 65), S(b'\xff' * 70), S('\u00e9' * 40), S('a' * 63 + '\u00e9' + 'b' * 10), S('x' * 300), S(b'a' * 64 + b'\xc3'), S(b'\xe3\x81' * 40), S('\U0001f600' * 20), S(b'\x00' * 70)]
-HOSTILE = HOSTILE_STRINGS + [('strpanic',), ('strnilptr',), ('strselfpanic',), ('nilmap',), ('nil',), F(float('nan')), F(float('inf')), F(float('-inf'))] + [('o', t) for t in list(range(21)) + [22, 23, 24, 25, 26, 27, 29, 30, 31, 32, 33, 34, 35, 36, 37, 38, 39, 40, 41, 42, 43]] + \
+HOSTILE = HOSTILE_STRINGS + [('strpanic',), ('strnilptr',), ('strselfpanic',), ('strpanicinvop',), ('strpanicinvopw',), ('nilmap',), ('nil',), F(float('nan')), F(float('inf')), F(float('-inf'))] + [('o', t) for t in list(range(21)) + [22, 23, 24, 25, 26, 27, 29, 30, 31, 32, 33, 34, 35, 36, 37, 38, 39, 40, 41, 42, 43, 44, 45, 46, 47, 48, 49]] + \
           [('str', b'abc'), ('strptr', b'1.0.0'), ('m', [(b'y', ('strpanic',))]), ('m', [(b'y', ('o', 3))])]
 
 def check_C07(ctx):
